@@ -366,6 +366,16 @@ def jobs_hist(prop, tier):
                 else:
                     j += hjob(prop, p, pat, mem, 5 if p == 'd' else 4, grid='full' if p == 'd' else 'quick', slices=16 if p == 'd' else 4)
     if prop == 'C08':
+        # K16 (Engine S): first factorization inline, then a RE-factorization (usepr yes/no, new values) whose every interleaving is explored
+        b = 1 if q else 2
+        j.append(sjob('C08', 'dense4', 2, b, refact=1, vk=1, vk2=8, usepr=1, ms=1)); j.append(sjob('C08', 'dense4', 2, 2, refact=1, vk=1, vk2=0, usepr=1, ms=1))
+        j.append(sjob('C08', 'lower5', 2, b, refact=1, vk=1, vk2=8, usepr=1, w=4, ms=4)); j.append(sjob('C08', 'tree7', 2, 1, refact=1, vk=1, vk2=0, usepr=0))
+        j.append(sjob('C08', 'chain4', 2, 2, refact=1, vk=1, vk2=7, usepr=1)); j.append(sjob('C08', 'chain4', 3, 1, refact=1, vk=1, vk2=8, usepr=1, u=0.1))
+        j.append(sjob('C08', 'two6', 2, b, refact=1, vk=1, vk2=8, usepr=1)); j.append(sjob('C08', 'relax6', 2, 1, refact=1, vk=1, vk2=0, usepr=1, relax=3))
+        for p in ('z' if q else 'scz'):
+            j.append(sjob('C08', 'dense4', 2, 1, prec=p, refact=1, vk=1, vk2=8, usepr=1, ms=1))
+        if not q:
+            j.append(sjob('C08', 'dense5', 2, 2, refact=1, vk=1, vk2=8, usepr=1, ms=1)); j.append(sjob('C08', 'tree7', 3, 1, refact=1, vk=1, vk2=8, usepr=1)); j.append(sjob('C08', 'dense4', 3, 2, refact=1, vk=1, vk2=0, usepr=1, ms=1))
         for pat in (0, 1):
             j += hjob(prop, 'd', pat, 0, 3, extra=['--u', '0.1']); j += hjob(prop, 'd', pat, 1, 3, variant='qv')
     if prop == 'C17':
